@@ -50,7 +50,7 @@ chk("C13",
 chk("C01",
     "Every bounded input (and every member of the parametric families) is parsed through both entry points and the statement is checked literally: "
     "ordering, gap blankness, Source == input range with NUL replaced, 1-based StartLine against an independent line counter, aliasing of the caller's buffer and non-modification of it and of its spare capacity.",
-    COMMON_NOTE + " Streaming is driven with one full read, one-byte reads and every single-cut schedule here; arbitrary schedules and reader faults are C08.",
+    COMMON_NOTE + " Streaming is driven with one full read, one-byte reads, every single-cut schedule and data-with-EOF reads here (plus documents beyond one and two read chunks under 9 read-size patterns); arbitrary schedules and reader faults are C08.",
     "stateless explicit enumeration of all bounded inputs x 2 entry points against the real parser; tiling/offset/line oracle written from the statement",
     "DESIGN.md section 6, C01")
 chk("C08",
@@ -67,7 +67,7 @@ chk("C16",
     "stateless explicit enumeration of all bounded inputs x every root block; differential oracle document-parse vs stand-alone re-parse on the real code",
     "DESIGN.md section 6, C16")
 chk("C18",
-    "The real Walk is closed with callbacks whose every answer is a choice of the explorer: Pre nil or not, Post nil or not, six child views (default, virtual root, reversed, first-child-hidden, only-Child, only-ChildCount), the return value of Pre at every call (all prune sets for trees of <= 10 nodes, deviation-bounded above) and an abort at any Post call. "
+    "The real Walk is closed with callbacks whose every answer is a choice of the explorer: Pre nil or not, Post nil or not, six child views (default, virtual root, reversed, first-child-hidden, only-Child, only-ChildCount), the return value of Pre at every call (all prune sets for trees of <= 10 nodes, deviation-bounded above) and an abort at any Post call; every walk is followed by a second complete walk of the same tree, and wide/deep trees (31..257 children or levels) are walked with one pruned node or abort anywhere. "
     "Each execution's callback trace (event, node, parent, index, parent block) must equal that of a recursive reference traversal replaying the same decisions, and the cursor invariants are checked at every callback.",
     COMMON_NOTE,
     "stateless model checking of the real Walk under a controlled environment: exhaustive enumeration of callback policies (prune sets, abort points, nil-ness, child views) over all bounded trees; reference-model trace comparison",
@@ -86,25 +86,25 @@ chk("C15",
     "DESIGN.md section 6, C15")
 
 chk("C07",
-    "Every bounded input (general, injection and character-reference alphabets) is parsed and rendered by the real renderer with IgnoreRaw=true under the three soft-break behaviours, and with IgnoreRaw=false when the tree has no raw-HTML node; every output must be accepted by a strict scanner for the renderer's safe output language (fixed elements and attributes, proper nesting, single-space-separated quoted attributes, no raw < or \" where they could act, every & a well-formed character reference).",
+    "Every bounded input (general, injection and character-reference alphabets) is parsed and rendered by the real renderer with IgnoreRaw=true under the three soft-break behaviours, and with IgnoreRaw=false when the tree has no raw-HTML node, each also with FilterTag set (GFM, reject-nothing) and with a nil ReferenceMap; every output must be accepted by a strict scanner for the renderer's safe output language (fixed elements and attributes, proper nesting, single-space-separated quoted attributes, no raw < or \" where they could act, every & a well-formed character reference).",
     "Bounded scope (alphabets, lengths in the evidence). The scanner is self-tested on hand-written members/non-members before every run; the HTML5 entity table is generated from Python's html.entities.",
     "stateless explicit enumeration of all bounded inputs x 6 renderer configurations; output-language membership oracle (strict scanner)",
     "DESIGN.md section 6, C07")
 
 chk("C10",
-    "Every bounded input is parsed and its tree rendered by the real renderer under 36 configurations (3 soft-break behaviours x IgnoreRaw x 6 FilterTag predicates); each output must equal, byte for byte (modulo &lt; vs < when a tag filter is set), an independent recursive reading of the tree through the public accessors; determinism, the Render/AppendBlock join law, dst-prefix preservation, silence of reference definitions, RenderHTML == default renderer, and an unchanged tree dump and Source are checked on the same executions.",
+    "Every bounded input is parsed and its tree rendered by the real renderer under 36 configurations (3 soft-break behaviours x IgnoreRaw x 6 FilterTag predicates) and with a nil ReferenceMap; destinations over a URI alphabet are enumerated in links, images, definitions and autolinks; each output must equal, byte for byte (modulo &lt; vs < when a tag filter is set), an independent recursive reading of the tree through the public accessors; determinism, the Render/AppendBlock join law, dst-prefix preservation, silence of reference definitions, RenderHTML == default renderer, and an unchanged tree dump and Source are checked on the same executions.",
     "Bounded scope (alphabets, lengths in the evidence). The reference follows the library's documented escape sets and attribute order (calibration log in DESIGN.md); which '<' a filter escapes is left to C17.",
     "stateless explicit enumeration of all bounded inputs x 36 renderer configurations; reference-model (direct tree reading) comparison on every execution",
     "DESIGN.md section 6, C10")
 
 chk("C17",
-    "Every bounded raw-HTML input (two alphabets with comments, CDATA, declarations, processing instructions, stray <, quotes, upper case) in three contexts, and every bounded inline input, is rendered by the real renderer without and with each of 5 predicates; the filtered output must be the unfiltered output with some '<' replaced by '&lt;' (two-pointer check), identical under a predicate that rejects nothing, and a WHATWG data-state tokenizer over it must emit no start tag whose name the predicate rejects.",
+    "Every bounded raw-HTML input (three alphabets - lexical, quoting/upper case, whole-tag tokens - with comments, CDATA, declarations, processing instructions, stray <, quotes, upper case) in three contexts, and every bounded inline input, is rendered by the real renderer without and with each of 5 predicates; the filtered output must be the unfiltered output with some '<' replaced by '&lt;' (two-pointer check), identical under a predicate that rejects nothing, and a WHATWG data-state tokenizer over it must emit no start tag whose name the predicate rejects (for the library's GFM predicate: the nine element names of the statement, all enumerated in 4 letter-case patterns x 10 tag shapes x 3 contexts).",
     "Bounded scope (alphabets, lengths in the evidence). The tokenizer reference is self-tested before every run against x/net/html's tokenizer on 137k strings and on hand-written cases; no tree construction (data-state family only), as the property states.",
     "stateless explicit enumeration of all bounded inputs x 3 contexts x 5 predicates x 2 soft-break modes; reference HTML tokenizer as oracle over the real renderer's output",
     "DESIGN.md section 6, C17")
 
 chk("C11",
-    "Every string up to the stated length over the 5-symbol and the 8-symbol emphasis alphabets (non-ASCII punctuation, space and letter included) that is a one-paragraph document (by the reference recognisers; others skipped and counted) is parsed and rendered by the real code and compared with an executable transcription of spec 6.2 flanking + the appendix's process-emphasis procedure without the openers_bottom optimisation.",
+    "Every string up to the stated length over the 5-symbol and the 8-symbol emphasis alphabets (non-ASCII punctuation, space and letter included) and, deeper, over the sub-alphabets {* _ a space} (11/13 symbols) and {* _ a} (13/16) that is a one-paragraph document (by the reference recognisers; others skipped and counted) is parsed and rendered by the real code and compared with an executable transcription of spec 6.2 flanking + the appendix's process-emphasis procedure without the openers_bottom optimisation.",
     "Bounded scope (lengths in the evidence). The reference is self-tested on the spec's emphasis examples that use no other syntax before every run.",
     "exhaustive enumeration of all bounded delimiter-run strings; reference-model (spec procedure) comparison on the real parser's rendered output",
     "DESIGN.md section 6, C11")
@@ -116,30 +116,30 @@ chk("C04",
     "DESIGN.md section 6, C04")
 
 chk("C12",
-    "Three exhaustive explorations on the real parser: (a) every ordered pair of bounded use/definition labels (case pairs, multi-character folds, label whitespace incl. line endings, NBSP, escaped brackets) in a document using the label as shortcut, collapsed, full reference and image - resolves iff the reference normal forms are equal and both labels valid; (b) every sequence of up to 4 segments with one use and 1-3 competing definitions (plain, in quote, in list item, nested, two in one paragraph) - the first in source order supplies href/title and is the map's only entry; (c) closure laws on all bounded inputs of four general spaces (every reference node names a map key, keys in normal form, map == fresh Extract over the blocks == streaming pipeline's map).",
+    "Three exhaustive explorations on the real parser: (a) every ordered pair of bounded use/definition labels (case pairs, multi-character folds, label whitespace incl. line endings, NBSP, escaped brackets; a second alphabet with NUL runs) in a document using the label as shortcut, collapsed, full reference and image - resolves iff the reference normal forms are equal and both labels valid; (b) every sequence of up to 4 segments with one use and 1-3 competing definitions (plain, in quote, in list item, nested, two in one paragraph, or inside one root container holding a tree of quotes and items with definitions at different depths) - the first in source order supplies href/title and is the map's only entry; (c) closure laws on all bounded inputs of four general spaces (every reference node names a map key, keys in normal form, map == fresh Extract over the blocks == streaming pipeline's map).",
     "Bounded scope (alphabet and lengths in the evidence). Reference normalisation uses a hand-written full-case-folding table for the alphabet's characters (self-tested), not x/text.",
     "exhaustive enumeration of bounded label pairs, definition placements/orders and inputs; reference-model (spec 6.3 normalisation, first-wins) comparison on the real parser",
     "DESIGN.md section 6, C12")
 
 chk("C19",
-    "Part 1: the two packages are rebuilt with a generated overlay that calls a hook before every statement; under a cooperative scheduler exactly one harness thread runs and every hook call is a scheduling point at which the explorer may preempt. For every multiset of 2 (thorough: 3) operations out of Parse(A), Parse(B), Render through one shared HTMLRenderer, Render through own renderers, Format and Walk on one shared tree, all schedules within the preemption bound are enumerated (bound 1 at statement granularity, bound 2 at first-function-entry granularity; thorough: bound 2 fine, bound 3 coarse, triples); each thread's result must equal its sequential result and the shared tree must be unchanged. "
-    "Part 2: the same thread bodies run free under the race detector in a separate -race build; any report is a violation.",
+    "Part 1: the two packages are rebuilt with a generated overlay that calls a hook before every statement; under a cooperative scheduler exactly one harness thread runs and every hook call is a scheduling point at which the explorer may preempt. Package sync is replaced by a scheduler-aware stand-in in that build (blocked threads hand over, deadlocks and spin-waits are detected, pools are deterministic). For every multiset of 2 (thorough: 3) operations out of Parse of four documents, Render through one shared HTMLRenderer, Render through own renderers, Format and Walk on one shared tree, all schedules within the preemption bound are enumerated (bound 1 at statement granularity, bound 2 at first-function-entry granularity; thorough: bound 2 fine, bound 3 coarse, triples); each thread's result must equal its sequential result and the shared tree must be unchanged. "
+    "Part 2: the same thread bodies run free under the race detector in a separate -race build, one fresh process per operation pair (cold lazily-built state), plus the 652 spec examples parsed/rendered/formatted/walked on 2 and 8 goroutines and each tree worked on by four goroutines at once; any report or result differing from the sequential one is a violation.",
     "Statement granularity, small harness inputs; paths the harness does not execute and memory-model effects below statement granularity are outside part 1. The race clause relies on Go's race detector and is not a schedule enumeration (labelled as such in the evidence).",
     "stateless model checking of the real code under a controlled cooperative scheduler (preemption-bounded enumeration of thread interleavings, CHESS-style) + separate free-running race-detector pass",
     "DESIGN.md section 6, C19; section 2.3")
 
 chk("C06",
-    "The driver is a nondeterministic generator: it chooses an abstract document (block skeletons of <= 4 nodes; inline sequences from a 31-atom menu in 8 composition contexts; all escaped texts of <= 3 characters over letter/space/32 punctuation characters) and then every spelling the serializer is allowed (bullet and delimiter characters, marker padding 1-4, tab where a tab stop makes it equal, fence character/length, ATX closing sequence, setext underline length, quote marker variants, title quoting, destination form, hard-break spelling, escaping style, LF/CRLF) within a deviation bound; the real Parse+RenderHTML output must equal the document's denotation through ref.Norm. A guard that re-reads every line with the reference recognisers rejects (and counts) documents it cannot prove unambiguous.",
+    "The driver is a nondeterministic generator: it chooses an abstract document (block skeletons of <= 4 nodes; inline sequences from a 31-atom menu in 8 composition contexts; all escaped texts of <= 3 characters over letter/space/32 punctuation characters; code-block contents from a menu of fence-like lines; container chains to depth 5-6; trees of nested tight/loose lists; escaped link titles and destinations; numeric character references at their digit limits) and then every spelling the serializer is allowed (bullet and delimiter characters, marker padding 1-4, tab where a tab stop makes it equal, fence character/length, ATX closing sequence, setext underline length, quote marker variants, title quoting, destination form, hard-break spelling, escaping style, LF/CRLF) within a deviation bound; the real Parse+RenderHTML output must equal the document's denotation through ref.Norm. A guard that re-reads every line with the reference recognisers rejects (and counts) documents it cannot prove unambiguous.",
     "Bounded scope (node/atom/deviation bounds in the evidence). The abstract model, denotation and serializer are the trusted base (Appendix A of DESIGN.md), self-tested against spec examples their canonical spellings coincide with. Laziness and most tab spellings are not generated.",
     "stateless model checking of a closed generator-serializer-parser-renderer system: exhaustive enumeration of abstract documents x deviation-bounded serializer spellings; reference denotation as oracle",
     "DESIGN.md section 6, C06; Appendix A")
 chk("C09",
-    "Every tab-free bounded input D is quoted with each of 4 block quote marker spellings and, when admissible, indented under each of 7 list markers with N=1..4; every variant must parse to exactly one block quote / one one-item list whose safe-mode rendering is D's rendering wrapped (through ref.Norm, modulo renderer-made <p> for the tight one-item list), with an equal reference map.",
+    "Every tab-free bounded input D is quoted with each of 4 block quote marker spellings and, when admissible, indented under each of 7 list markers with N=1..4; every variant must parse to exactly one block quote / one one-item list whose safe-mode rendering is D's rendering wrapped (through ref.Norm, modulo renderer-made <p> for the tight one-item list), whose raw HTML (rendering with raw tags for quotes; the tree's tag and HTML-block text for lists) is D's, with an equal reference map.",
     COMMON_NOTE,
     "stateless explicit enumeration of all bounded inputs x 32 container transformations; metamorphic oracle on the real parser and renderer",
     "DESIGN.md section 6, C09")
 chk("C20",
-    "First clause: the real Format is closed with a scripted writer (with and without WriteString) that may fail at any one write call; every fault point of every bounded input is one execution (returned error must be that writer's error, no write after it), the fault-free execution checks nil error, determinism, equality across writer kinds and an unchanged tree. Second clause: every canonical-style document of the supported construct set S_fmt (block skeletons and inline sequences of the C06 generator in canonical spelling) is formatted, re-parsed and compared on rendered HTML, and re-formatted for byte equality.",
+    "First clause: the real Format is closed with a scripted writer (with and without WriteString) that may fail at any one write call; every fault point of every bounded input is one execution (returned error must be that writer's error, no write after it), the fault-free execution checks nil error, determinism, equality across writer kinds and an unchanged tree. Second clause: every canonical-style document of the supported construct set S_fmt (block skeletons, inline sequences, nested-list trees, container chains and code-block contents of the C06 generator in canonical spelling) is formatted, re-parsed and compared on rendered HTML, and re-formatted for byte equality.",
     "Bounded scope (alphabets, lengths, document sizes in the evidence). S_fmt is fixed in DESIGN.md section 6 (C20); documents outside it are counted, not judged.",
     "fault enumeration over a controlled writer (every write-call fault point) + exhaustive enumeration of canonical documents with a round-trip oracle",
     "DESIGN.md section 6, C20", "fault_enumeration")
